@@ -1,7 +1,7 @@
 """C02 — server answers every request with its own result (no cross-talk)."""
-from contracts.worker import UNITS_SINGLE, ASSUMPTIONS as W_ASSUMPTIONS
+from contracts.worker import UNITS_SINGLE, UNITS_BATCH, ASSUMPTIONS as W_ASSUMPTIONS
 from contracts.server import EnqueueUnit, AEnqueueUnit, GatherUnit, AGatherUnit, UNITS_ENTRY, ASSUMPTIONS as S_ASSUMPTIONS
-UNITS = list(UNITS_ENTRY) + list(UNITS_SINGLE) + [EnqueueUnit, AEnqueueUnit, GatherUnit, AGatherUnit]
+UNITS = list(UNITS_ENTRY) + list(UNITS_SINGLE) + list(UNITS_BATCH) + [EnqueueUnit, AEnqueueUnit, GatherUnit, AGatherUnit]
 ASSUMPTIONS = tuple(W_ASSUMPTIONS) + tuple(S_ASSUMPTIONS)
 from contracts.servlet import UNITS_FORWARD, UNITS_DEQUEUE
 UNITS += list(UNITS_FORWARD) + list(UNITS_DEQUEUE)
